@@ -6,7 +6,8 @@ CHECK = {
              "real discard/discard_subsequence/Initializer to all unit + dense states and compared "
              "with T^n computed by independent matrix powering; composite 64-bit counts; Weyl "
              "arithmetic; discard(n) vs n draws for all n<=N; ord(T)=2^160-1; reseed_rng for all "
-             "(event,slots,slot) in the bound; the Initializer with every single-digit subsequence x "
+             "(event,slots,slot) in the bound plus events 2^60+3 and floor(2^64/slots)-1 (128-bit reference "
+             "index) and StreamId 1/7 == StreamId 0; the Initializer with subsequence 0 and every single-digit subsequence x "
              "4 seeds x a 64-bit offset lattice (0, 5, 2^32-1, 2^32, 2^32+5, 2^63, 2^64-1); "
              "GenerateCanonical32<float> over all 2^32 words and "
              "<double> over upper words x extreme lower words; generate_canonical<float/double>"
@@ -26,9 +27,11 @@ CHECK = {
     ],
     "bounds": {"quick": {"seq_n": 4096, "reseed_events": 12, "reseed_slots": 6,
                          "double_upper_stride": 64,
+                         "reseed_big_events": 5, "reseed_streams": 3, "init_subseq0": 1,
                          "init_offsets": 7, "engine_canonical_W": 10, "engine_canonical_L": 7},
                "thorough": {"seq_n": 65536, "reseed_events": 64, "reseed_slots": 16,
                             "double_upper_stride": 1,
+                            "reseed_big_events": 5, "reseed_streams": 3, "init_subseq0": 1,
                             "init_offsets": 7, "engine_canonical_W": 520, "engine_canonical_L": 7}},
     "parts": [
         {"name": "rng", "harness": "c13_rng", "flavour": "rel", "cflags": ["-fno-access-control"],
